@@ -15,7 +15,7 @@ INFO = {
              'depth >=2, or a resource name shared with the serving application, or a unique middleware type at two levels, or '
              'differing slash modes; distinct trees counted.'),
     'assumptions': ['both sides execute clastic; the flattening logic is the harness\'s own',
-                    'a render factory strictly between the route\'s own application and the outermost one is not combined with factory-argument renders (precedence there is not stated)',
+                    'render arguments follow the rule written down in BoundRoute.__init__ (re-interpreted, when re-binding was requested or while unfulfilled, by the most recently bound application that has a render factory)',
                     'names defined only by two inner levels are not generated'],
 }
 
@@ -48,7 +48,7 @@ def strategy():
                 sub = draw(node(depth + 1, child_mid))
                 n['items'].append(['app', draw(st.sampled_from(['/s', '/s/', '/', '/t/u', '/x'])), draw(st.booleans()), draw(st.booleans()), sub])
             else:
-                rk = draw(st.sampled_from(['none', 'callable', 'arg', 'arg'])) if not mid_factory else draw(st.sampled_from(['none', 'callable']))
+                rk = draw(st.sampled_from(['none', 'callable', 'arg', 'arg']))
                 n['items'].append(['route', draw(st.sampled_from(PATTERNS)), draw(st.sampled_from(METHODS)), draw(st.sampled_from(BEH)), rk,
                                    draw(st.lists(st.sampled_from(RES), max_size=2, unique=True))])
         return n
@@ -193,13 +193,13 @@ class Builder(object):
             for i, it in enumerate(node['items']):
                 if it[0] == 'app':
                     _, pfx, inherit, rebind, sub = it
-                    walk(sub, '%s.%d' % (level_id, i), prefix + pfx.rstrip('/'), merged, res, chain + [(node, inherit, rebind)])
+                    walk(sub, '%s.%d' % (level_id, i), prefix + pfx.rstrip('/'), merged, res, chain + [(node, inherit, rebind, level_id)])
                     continue
                 _, pattern, methods, beh, rk, uses = it
                 rid = '%s.%d' % (level_id, i)
                 # slash mode: the route's own application's, replaced by each embedding application that inherits
                 mode = node['mode']
-                for parent, inherit, _rb in reversed(chain):
+                for parent, inherit, _rb, _lid in reversed(chain):
                     if inherit:
                         mode = parent['mode']
                 # renderer
@@ -207,14 +207,16 @@ class Builder(object):
                 if rk == 'callable':
                     render = self.renders[rid]
                 elif rk == 'arg':
-                    if node is root:
-                        fac = 'L' if root['factory'] else None
-                    else:
-                        root_rebind = chain[0][2]
-                        if node['factory'] and not (root_rebind and root['factory']):
-                            fac = level_id
-                        else:
-                            fac = 'L' if root['factory'] else (level_id if node['factory'] else None)
+                    # the rule documented in BoundRoute.__init__: a render argument is interpreted by the route's own application if
+                    # that has a factory; at every embedding it is re-interpreted - when re-binding was requested, or while it is
+                    # still unfulfilled - by the most recently bound application that has a factory
+                    fac = level_id if node['factory'] else None
+                    bound = [(node, level_id)]
+                    for parent, _inh, rebind, parent_id in reversed(chain):
+                        bound.append((parent, parent_id))
+                        latest = next((lid for n_, lid in reversed(bound) if n_['factory']), None)
+                        if (rebind or fac is None) and latest is not None:
+                            fac = latest
                     render = factory(fac)('tmpl-%s' % rid) if fac else None
                     if fac is None:
                         render = 'unfulfilled-%s' % rid      # no factory anywhere: stays an unusable argument
@@ -326,7 +328,7 @@ def norm_body(b):
 
 
 def shards(tier, seed):
-    n = 25 if tier == 'quick' else 3600
+    n = 100 if tier == "quick" else 3600
     return [{'n': n} for _ in range(16)]
 
 
